@@ -19,6 +19,9 @@ from .c12 import EXTRA
 SHAPES = {
     # characters that are special to logging / formatting layers: the text of a document must never be used as a format
     "format-characters": b"# Cost: $5 {0} %s\n\n$ pip install x gives 100%% of {name} and %d or %(k)s \\$ {} $$ ${var}\n\n- item $1\n\n> `$code` <b>$</b>\n",
+    "inline-kinds": ("# Contact <http://a.example> and <me@example.com>\n\nPlease write to <support@example.com> or see <https://example.com/x> for `code`, *em*, **strong**, "
+                     "[link](/u \"t\"), ![img](/i.png), <b>raw</b>, &amp; &#35; \\* escaped, [ref] and ~~strike~~  \nhard break\\\nbackslash break\n#hashtag line\n\n"
+                     "- item <you@example.org> and `c`\n\n> quote <mailto:x@y.z> *e*\n\nSetext <a@b.co>\n---\n\n[ref]: /r\n").encode("utf-8"),
     "bom": "\ufeff#  Title\n\nSome text with an accent: caf\u00e9.".encode("utf-8"),
     "url-fragments": b"# T\n\nPoint your browser at http://`hostname`:8080/admin\n\nmirror ftp://*yours*/pub and https://\n\nstarts with http://\n",
     "no-final-newline": b"# T\n\nlast line without newline   ",
@@ -128,6 +131,47 @@ DIAG = [[]] + [lv + st + lf for lv in ([], ["--log-level", "CRITICAL"], ["--log-
                for st in ([], ["--stack-trace"]) for lf in ([], ["--log-file", "run.log"]) if lv or st or lf]
 
 
+DIR_FILES = [("a_first.md", b"# A\n\n<!-- pyml disable-next-line line-length-->\n" + b"word " * 25 + b"\n\n<!-- pyml disable-num-lines 3 md009-->\ntext   \n"),
+             ("b_second.md", b"# B\n\ntext\n" + b"word " * 25 + b"\n\nmore   \n"),
+             ("c_third.md", b"no heading first\n\n* a\n+ b\n\n---\n\n***\n")]
+
+
+def _dir_case(_job):
+    """the files of a directory through `scan dir`, `scan a b c`, api.scan_path(dir): what is said about each file equals its solo scan"""
+    import tempfile
+    import shutil
+    from pymarkdown.api import PyMarkdownApi
+    out = {}
+    solo = {}
+    for n, d in DIR_FILES:
+        o = runs.execute([("docs/" + n, d)], ["scan", "docs/" + n], keep_contents=False)
+        solo[n] = sorted((f[1], f[2], f[3]) for f in obs.parse_failures(o["out"]))
+    files = [("docs/" + n, d) for n, d in DIR_FILES]
+    for label, argv in (("scan-dir", ["scan", "docs"]), ("scan-files", ["scan"] + ["docs/" + n for n, _ in DIR_FILES])):
+        o = runs.execute(files, argv, keep_contents=False)
+        per = {}
+        for f in obs.parse_failures(o["out"]):
+            per.setdefault(os.path.basename(f[0]), []).append((f[1], f[2], f[3]))
+        out[label] = {n: sorted(per.get(n, [])) for n, _ in DIR_FILES} if not o["exc"] and o["code"] in (0, 1) else None
+    base = tempfile.mkdtemp(prefix="vhd-", dir="/dev/shm" if os.path.isdir("/dev/shm") else None)
+    try:
+        os.mkdir(os.path.join(base, "docs"))
+        for n, d in DIR_FILES:
+            with open(os.path.join(base, "docs", n), "wb") as f:
+                f.write(d)
+        r = PyMarkdownApi().scan_path(os.path.join(base, "docs"))
+        per = {}
+        for f in r.scan_failures:
+            per.setdefault(os.path.basename(f.scan_file), []).append((f.line_number, f.column_number, f.rule_id.upper()))
+        out["api-scan-path-dir"] = {n: sorted(per.get(n, [])) for n, _ in DIR_FILES}
+    except Exception as ex:  # pylint: disable=broad-except
+        out["api-scan-path-dir"] = None
+        out["api-error"] = "%s: %s" % (type(ex).__name__, ex)
+    finally:
+        shutil.rmtree(base, ignore_errors=True)
+    return {"solo": solo, "together": out}
+
+
 def _diag(job):
     name, files, mode, diag, coe = job
     argv = list(diag) + (["--add-plugin", appscen.FAULTY, "--continue-on-error"] if coe else []) + [mode] + [n for n, _ in files]
@@ -154,6 +198,15 @@ def run(pid, tier):
         traces.append([{"key": k, "val": obs.h(v), "forbidden": False, "src": s} for k, s, v in evs] or
                       [{"key": "none", "val": "", "forbidden": False, "src": "undecodable"}])
         vals.append(evs)
+    # a directory of three files (pragmas in the first) through `scan dir`, `scan a b c` and api.scan_path(dir)
+    dc = _dir_case(None)
+    for label, per in dc["together"].items():
+        if label == "api-error" or per is None:
+            continue
+        for n, got in per.items():
+            if got != dc["solo"][n]:
+                ctx.violation("directory-entry-disagrees:%s:%s" % (label, n), {"entry": label, "file": n, "solo": dc["solo"][n][:8], "together": got[:8]})
+    ctx.ev.parts["directory_entry_points"] = sorted(k for k in dc["together"] if k != "api-error")
     # diagnostics
     files3 = [("a1.md", appscen.CONTENT["fixable"]), ("a2.md", appscen.CONTENT["perrl"]), ("a3.md", appscen.CONTENT["fix2"]), ("a4.md", appscen.CONTENT["trig"])]
     djobs = []
